@@ -436,6 +436,27 @@ func c11Adversarial(r *mon.Run, key *world.Key, jr *rand.Rand, idx int) {
 		dd.NonRevocationProof = nr.Respond(c)
 		try("adv-degenerate-commitments", fmt.Sprintf("revoked credential, C_r = C_u = %s against accumulator %d", map[bool]string{true: "0", false: "N"}[fc.Sign() == 0], cur), dd, c11Truth{credA, wA.U, wA.E}, false)
 	}
+	// one commitment alone degenerate (the other honest): with C_u = k*N only the relation that involves the accumulator
+	// collapses - which is the one a revoked holder cannot satisfy
+	for _, side := range []string{"C_u", "C_r"} {
+		for _, k := range []int64{0, 1, 2, 5} {
+			dis, hid := hiddenOf(credA, []int{1})
+			p := refimpl.NewDProver(pk, credA.C.Signature, dis, hid)
+			ar := refimpl.NewAlphaRandomizer()
+			p.R[credA.RevIdx] = ar
+			nr := refimpl.NewNRProver(pk, wA.U, wA.E, rev.Accs[cur].Nu, rev.SAccs[cur], ar)
+			if side == "C_u" {
+				nr.ForceCu = mul(pk.N, bi(k))
+			} else {
+				nr.ForceCr = mul(pk.N, bi(k))
+			}
+			p.Extra = nr.Commit()
+			c := refimpl.Challenge(ctx, nonce, p.Commit(), false)
+			dd := p.Respond(c)
+			dd.NonRevocationProof = nr.Respond(c)
+			try("adv-degenerate-commitments", fmt.Sprintf("revoked credential, %s = %d*N alone (other commitment honest) against accumulator %d", side, k, cur), dd, c11Truth{credA, wA.U, wA.E}, false)
+		}
+	}
 	// stale but valid: old witness with its own old accumulator (legitimately accepted; the verifier sees index 0)
 	d = refNonrevProof(credA, []int{1}, credA.RevIdx, wA.U, wA.E, rev.Accs[0].Nu, rev.SAccs[0], ctx, nonce, nil)
 	try("adv-stale-valid", "old witness with its old accumulator", d, c11Truth{credA, wA.U, wA.E}, false)
